@@ -178,12 +178,71 @@ def handleSite : List String → String
     | _, _, _, _, _, _, _ => "bad-op"
   | other => handleVia other
 
+/-! ### `hosti` / `provision`: MatchHost.Provision with the values `idna.ToASCII` returned shipped
+    in the case (`=` = unchanged, `!` = error, else hex) -/
+
+inductive Conv where
+  | same | err | to (a : Bytes)
+
+def parseConv (s : String) : Option Conv :=
+  if s == "=" then some .same else if s == "!" then some .err else (Hex.decode s).map .to
+
+def parseTable (s : String) : Option (List Conv) :=
+  if s == "." then some [] else (s.splitOn ",").mapM parseConv
+
+def convOf (e : Bytes) : Conv → Option Bytes
+  | .same => some e
+  | .err => none
+  | .to a => some a
+
+/-- the conversion function the case describes -/
+def idnaOf (entries : List Bytes) (tbl : List Conv) : Bytes → Option Bytes := fun e =>
+  match (entries.zip tbl).find? (·.1 == e) with
+  | some (_, c) => convOf e c
+  | none => none
+
+/-- what the model itself knows about `idna.ToASCII`: ASCII without an ACE label is unchanged -/
+def rowPlausible (e : Bytes) (c : Conv) : Bool :=
+  if isAscii e && !containsSub (lower e) [120, 110, 45, 45] then
+    (match c with | .same => true | .to a => a == e | .err => false)
+  else true
+
+def convertedOk (a : Bytes) : Bool := isAscii a && replIdentity a && !a.contains cBack
+
+def tableOk (entries : List Bytes) (tbl : List Conv) : Bool :=
+  (entries.zip tbl).all fun (e, c) => match convOf e c with | some a => convertedOk a | none => true
+
+def showProv : ProvRes → String
+  | .idnaErr => "err:idna"
+  | .dup => "err:dup"
+  | .ok m => "ok " ++ (if m.isEmpty then "." else ",".intercalate (m.map Hex.encode))
+
+def handleProv : List String → String
+  | ["hosti", entries, table, rhost] =>
+    match parseList entries, parseTable table, Hex.decode rhost with
+    | some l, some t, some h =>
+      if l.length != t.length || !(l.zip t).all (fun (e, c) => rowPlausible e c) then "bad-op"
+      else if !(tableOk l t && isAscii h) then "ood"
+      else match hostCaseI (idnaOf l t) largeThreshold l h with
+        | .idnaErr => "err:idna"
+        | .dup => "err:dup"
+        | .res b => showBool b
+    | _, _, _ => "bad-op"
+  | ["provision", entries, table] =>
+    match parseList entries, parseTable table with
+    | some l, some t =>
+      if l.length != t.length || !(l.zip t).all (fun (e, c) => rowPlausible e c) then "bad-op"
+      else if !tableOk l t then "ood"
+      else showProv (provisionHostI (idnaOf l t) largeThreshold l)
+    | _, _ => "bad-op"
+  | other => handleSite other
+
 def handle : List String → String
   | ["pathpair", kind, pats, p1, e1, p2, e2] =>
     match parseList pats, Hex.decode p1, Hex.decode e1, Hex.decode p2, Hex.decode e2 with
     | some l, some p1, some e1, some p2, some e2 => handlePair kind l p1 e1 p2 e2
     | _, _, _, _, _ => "bad-op"
-  | other => handleSite other
+  | other => handleProv other
 
 /-! ### the counter-examples proved in `Witness.lean` -/
 
